@@ -5,3 +5,7 @@ import VProps.C08
 #print axioms V.C08.v12_no_creator_in_users
 #print axioms V.C08.integer_only_levels
 #print axioms V.C08.pl_columns_eq_spec
+#print axioms V.C08.ceiling_step
+#print axioms V.C08.history_ceiling
+#print axioms V.C08.accepted_history
+#print axioms V.C08.accepted_pl_notifications
